@@ -429,6 +429,29 @@ def l4(run, mod, fns, project):
     A, U, R = f"{tv} is CommandResponseStream", f"{tv}.__name__.startswith('TPMU')", f"{tv} is Response"
     spec = [({A: True}, "skip"), ({U: True}, "skip"), ({R: True}, "TPM_CC")]
 
+    from .c01 import type_atom
+    L = ctx.layout(project)
+    domain = [c_ for c_ in L.all.values() if hasattr(c_, "name") and (L.is_dataclass(c_) or L.is_primitive(c_))] + [L.Stream]
+    domain = list({id(c_): c_ for c_ in domain + [L.Command, L.Response]}.values())
+
+    def fold_types(b):
+        """the types of the layout that take path b (its conditions are all tests on the candidate type), or None when a
+        condition is outside what the layout model evaluates"""
+        preds = []
+        for a_, v_, _n in b.cond:
+            f_ = type_atom(a_, tv)
+            if f_ is None:
+                return None
+            preds.append((f_, v_))
+        out = []
+        try:
+            for c_ in domain:
+                if all(bool(f_(c_, L)) == bool(v_) for f_, v_ in preds):
+                    out.append(c_)
+        except AnalysisError:
+            return None
+        return out
+
     def attempts(b, code):
         """leaf paths of one candidate: [(command-code text, path)]"""
         out = []
@@ -452,11 +475,29 @@ def l4(run, mod, fns, project):
         else:
             got = "?"
         want = paths.decide(spec, "(None,)", b)
-        kind = "parse_all_types skips" if got == "skip" or want == {"skip"} else "parse_all_types response codes"
-        run.ob("L4", want == {got}, f"type search [{label(b)}]: {got}",
-               f"for a type with [{label(b)}] the search does `{got}` where {sorted(want)} is required (only the stream type and union "
-               "types are excluded; Response is tried with every command code)", module=mod, node=b.node or (b.cond[-1][2] if b.cond else fn),
-               func=fn.name, construct=kind)
+        folded = fold_types(b)
+        if folded is not None:
+            # the tests on the candidate type are evaluated for every type of the layout's listing: the types this path is
+            # taken for must all require what the path does
+            wants = {}
+            for c_ in folded:
+                w_ = "skip" if c_ is L.Stream or (L.is_dataclass(c_) and c_.has("_selected_by")) else "TPM_CC" if c_ is L.Response else "(None,)"
+                wants.setdefault(w_, []).append(c_.name)
+            if not folded:
+                continue   # no type of the listing takes this path
+            bad = {w_: ns for w_, ns in wants.items() if w_ != got}
+            kind = "parse_all_types skips" if got == "skip" or "skip" in bad else "parse_all_types response codes"
+            run.ob("L4", not bad, f"type search [{label(b)}]: {got} ({len(folded)} types)",
+                   f"for a type with [{label(b)}] the search does `{got}`; that path is taken for " +
+                   "; ".join(f"{ns[0]}{' and ' + str(len(ns) - 1) + ' more' if len(ns) > 1 else ''}, which requires `{w_}`" for w_, ns in sorted(bad.items())) +
+                   " (only the stream type and union types are excluded; Response is tried with every command code)", module=mod,
+                   node=b.node or (b.cond[-1][2] if b.cond else fn), func=fn.name, construct=kind)
+        else:
+            kind = "parse_all_types skips" if got == "skip" or want == {"skip"} else "parse_all_types response codes"
+            run.ob("L4", want == {got}, f"type search [{label(b)}]: {got}",
+                   f"for a type with [{label(b)}] the search does `{got}` where {sorted(want)} is required (only the stream type and union "
+                   "types are excluded; Response is tried with every command code)", module=mod, node=b.node or (b.cond[-1][2] if b.cond else fn),
+                   func=fn.name, construct=kind)
         if got == "skip":
             continue
         for code, ib in attempts(b, None):
